@@ -48,6 +48,10 @@ COMBINATOR_CALLS = {
 POLL_CALLS = {'std::future::Future::poll'}
 
 
+PRED_BOOL = {'std::option::Option::<T>::is_some': ('Some', 'None'), 'std::option::Option::<T>::is_none': ('None', 'Some'),
+             'std::result::Result::<T, E>::is_ok': ('Ok', 'Err'), 'std::result::Result::<T, E>::is_err': ('Err', 'Ok')}
+
+
 class Flow:
     def __init__(self, body):
         self.body = body
@@ -187,6 +191,10 @@ class Flow:
                                 work.append((t['dst']['l'], mode, 'optres:' + ty0, neg))
                             elif c in ('std::pin::Pin::<Ptr>::new_unchecked', 'std::pin::Pin::<Ptr>::new'):
                                 work.append((t['dst']['l'], mode, ty0, neg))
+                            elif mode == 'val' and c in PRED_BOOL and ':' not in ty0.split('<')[0].replace('::', ''):
+                                # x.is_some() / is_none() / is_ok() / is_err(): the bool's edges are the value's outcomes
+                                tn, fn_ = PRED_BOOL[c]
+                                work.append((t['dst']['l'], 'val', 'pred|%s|%s' % ((fn_, tn) if neg else (tn, fn_)), False))
                             elif c == 'std::future::Future::poll':
                                 work.append((t['dst']['l'], 'poll', ty0, neg))
                     continue
@@ -232,6 +240,8 @@ class Flow:
         names = self._variant_names(mode, ty0)
         if names is None:
             return
+        if neg and ty0.startswith('pred|'):
+            names = {0: names[1], 1: names[0]}
         listed = set()
         for v, tgt in t['targets']:
             n = names.get(v)
@@ -261,6 +271,9 @@ class Flow:
         if mode == 'val':
             if ty0 == 'bool':
                 return {0: 'false', 1: 'true'}
+            if ty0.startswith('pred|'):
+                _, tn, fn_ = ty0.split('|')
+                return {0: fn_, 1: tn}
             return None
         if mode in ('polldiscr', 'poll'):
             return None
